@@ -42,21 +42,21 @@ LEMMA ModSmall ==
 \* adding d after reducing, or before: the same
 LEMMA ModAdd ==
     ASSUME NEW M \in Nat \ {0}, NEW x \in 0..(2 * M - 1), NEW d \in 0..(M - 1), x + d <= 2 * M - 1
-    PROVE  (x % M + d) % M = (x + d) % M
+    PROVE  ((x % M) + d) % M = (x + d) % M
 <1>1. x % M = IF x < M THEN x ELSE x - M
     BY ModSmall
 <1>2. (x + d) % M = IF x + d < M THEN x + d ELSE x + d - M
     BY ModSmall
 <1>3. CASE x < M
-    <2>1. x % M + d \in 0..(2 * M - 1)
+    <2>1. (x % M) + d \in 0..(2 * M - 1)
         BY <1>1, <1>3, SMT
-    <2>2. (x % M + d) % M = IF x % M + d < M THEN x % M + d ELSE x % M + d - M
+    <2>2. ((x % M) + d) % M = IF (x % M) + d < M THEN (x % M) + d ELSE (x % M) + d - M
         BY <2>1, ModSmall
     <2> QED BY <1>1, <1>2, <1>3, <2>2, SMT
 <1>4. CASE x >= M
-    <2>1. x % M + d \in 0..(2 * M - 1)
+    <2>1. (x % M) + d \in 0..(2 * M - 1)
         BY <1>1, <1>4, SMT
-    <2>2. (x % M + d) % M = IF x % M + d < M THEN x % M + d ELSE x % M + d - M
+    <2>2. ((x % M) + d) % M = IF (x % M) + d < M THEN (x % M) + d ELSE (x % M) + d - M
         BY <2>1, ModSmall
     <2>3. x + d >= M
         BY <1>4, SMT
